@@ -195,6 +195,10 @@ func runCases(r *ev.Run, cases []Case, shrink bool) {
 	for _, c := range cases {
 		if clients[c.Universe] == nil {
 			clients[c.Universe] = c.Universe.Client(nil)
+			// The other systems' matchers read the same requirement texts
+			// first (see uni.ForeignWarmup): nothing npm does may depend on it.
+			uni.ForeignWarmup(c.Universe)
+			r.Count("foreign_warmups", 1)
 		}
 		one(r, c, clients[c.Universe], sat, shrink)
 	}
